@@ -40,6 +40,7 @@ type Solver struct {
 	fbModel   map[string]uint64
 	fbStats   struct{ Calls, ByCvc5Int, ByZ3 int }
 	tmpDir    string
+	recycled  int
 }
 
 func solverArgv(kind string, timeoutMs int) []string {
@@ -54,31 +55,74 @@ func solverArgv(kind string, timeoutMs int) []string {
 }
 
 func NewSolver(kind string, timeoutMs int, logPath string) (*Solver, error) {
-	argv := solverArgv(kind, timeoutMs)
-	cmd := exec.Command(argv[0], argv[1:]...)
-	in, err := cmd.StdinPipe()
-	if err != nil {
+	s := &Solver{kind: kind, timeout: timeoutMs}
+	if err := s.spawn(); err != nil {
 		return nil, err
 	}
-	out, err := cmd.StdoutPipe()
-	if err != nil {
-		return nil, err
-	}
-	cmd.Stderr = os.Stderr
-	if err := cmd.Start(); err != nil {
-		return nil, err
-	}
-	s := &Solver{cmd: cmd, in: in, out: bufio.NewReaderSize(out, 1<<16), kind: kind, timeout: timeoutMs}
 	if logPath != "" {
 		s.log, _ = os.Create(logPath)
 	}
+	return s, nil
+}
+
+// spawn starts the solver process and sends the prologue.
+func (s *Solver) spawn() error {
+	argv := solverArgv(s.kind, s.timeout)
+	cmd := exec.Command(argv[0], argv[1:]...)
+	in, err := cmd.StdinPipe()
+	if err != nil {
+		return err
+	}
+	out, err := cmd.StdoutPipe()
+	if err != nil {
+		return err
+	}
+	cmd.Stderr = os.Stderr
+	if err := cmd.Start(); err != nil {
+		return err
+	}
+	s.cmd, s.in, s.out = cmd, in, bufio.NewReaderSize(out, 1<<16)
 	s.raw("(set-option :print-success false)\n")
-	if kind != "cvc5" {
-		s.raw(fmt.Sprintf("(set-option :timeout %d)\n", timeoutMs))
+	if s.kind != "cvc5" {
+		s.raw(fmt.Sprintf("(set-option :timeout %d)\n", s.timeout))
 	}
 	s.raw("(set-option :produce-models true)\n")
 	s.raw("(set-logic QF_BV)\n")
-	return s, nil
+	return nil
+}
+
+// rssKB returns the resident set size of the solver process.
+func (s *Solver) rssKB() int {
+	b, err := os.ReadFile(fmt.Sprintf("/proc/%d/statm", s.cmd.Process.Pid))
+	if err != nil {
+		return 0
+	}
+	f := strings.Fields(string(b))
+	if len(f) < 2 {
+		return 0
+	}
+	n := 0
+	fmt.Sscanf(f[1], "%d", &n)
+	return n * (os.Getpagesize() / 1024)
+}
+
+// Recycle replaces the solver process by a fresh one when it has grown beyond
+// limitKB (incremental z3 keeps memory across push/pop scopes).  Only valid
+// between paths (no open scope).
+func (s *Solver) Recycle(limitKB int) {
+	if s.dead || s.rssKB() < limitKB {
+		return
+	}
+	s.flush()
+	s.in.Close()
+	s.cmd.Process.Kill()
+	s.cmd.Wait()
+	s.buf.Reset()
+	if err := s.spawn(); err != nil {
+		s.dead = true
+		return
+	}
+	s.recycled++
 }
 
 func (s *Solver) raw(txt string) {
